@@ -720,7 +720,7 @@ func pickInt(t *rapid.T, xs ...int) int { return xs[vk.Uniform(t, len(xs))] }
 
 func TestPropHistory(t *testing.T) {
 	maxOps := vk.N(30, 60)
-	vk.Rapid(t, subHistory, vk.N(1500, 8000), func(t *rapid.T) Case {
+	vk.Rapid(t, subHistory, vk.N(2000, 6000), func(t *rapid.T) Case {
 		pInvalid := []float64{0, 0.05, 0.15, 0.3}[vk.Uniform(t, 4)]
 		var ops []Op
 		// Start with material to alias: one or two populated variables.
